@@ -120,6 +120,12 @@ LibOps(name) ==
     [] name = "basicauth-ok"   -> <<>>
     [] name = "timeout-fired"  -> << <<"nextdefer", 504>> >>                   \* Timeout(d): c.Next(); deferred: deadline exceeded -> WriteHeader(504)
     [] name = "timeout-idle"   -> << <<"next">> >>
+    \* the response helpers of Context: each records ITS status (200 included) and then writes
+    [] name = "text200"        -> << <<"status", 200>>, <<"write", 3, "full">> >>  \* c.Text(200, "abc")
+    [] name = "html200-empty"  -> << <<"status", 200>> >>                          \* c.HTML(200, nil): headers only
+    [] name = "json201"        -> << <<"status", 201>>, <<"write", 8, "full">> >>  \* c.JSON(201, M{"a": 1}): one Write of the encoder
+    [] name = "jsonbytes200"   -> << <<"status", 200>>, <<"write", 2, "full">> >>  \* c.JSONBytes(200, "{}")
+    [] name = "nocontent"      -> << <<"status", 204>> >>                          \* c.NoContent()
 ExpandScript(s) == FlattenSeq([i \in 1..Len(s) |-> IF s[i][1] = "lib" THEN LibOps(s[i][2]) ELSE <<s[i]>>])
 ExpandChain(c)  == [i \in 1..Len(c) |-> ExpandScript(c[i])]
 
